@@ -141,26 +141,29 @@ theorem vbrHeader_xing (f : Bytes) (fr : Frame) (isInfo : Bool) (frames bytes sc
     · simp [hf, hb]
     · simp [hf, hb]
 
-theorem parse_xing (s : XingStream) (ok : s.OK) : parse s.build = .ok s.expected := by
+theorem parse_xing_at (pre : Bytes) (s : XingStream) (ok : s.OK) :
+    parseFrom (pre ++ s.build) pre.length = .ok { s.expected with frameOffset := pre.length + s.lead.render.length } := by
   obtain ⟨hlead, hok, hl3, hside, htag, hn1, hn2⟩ := ok
-  obtain ⟨rest, hscan⟩ := lead_scan s.lead hlead s.hdr (s.side ++ (s.tag.render ++ s.after))
+  obtain ⟨rest, hscan⟩ := lead_scan_at pre s.lead hlead s.hdr (s.side ++ (s.tag.render ++ s.after))
   have hb : s.build = s.lead.render ++ (s.hdr.bytes ++ (s.side ++ (s.tag.render ++ s.after))) := rfl
   rw [← hb] at hscan
-  generalize ho : s.lead.render.length = o at *
-  have d0 : s.build.drop o = s.hdr.bytes ++ (s.side ++ (s.tag.render ++ s.after)) := by rw [← ho]; exact drop_at _ _
-  have dq : s.build.drop (o + (4 + s.hdr.sideInfo)) = s.tag.render ++ s.after := by
+  have hE := size_shift pre s.build s.lead.render.length _ rfl
+  generalize ho : pre.length + s.lead.render.length = o at *
+  have d0 : (pre ++ s.build).drop o = s.hdr.bytes ++ (s.side ++ (s.tag.render ++ s.after)) := by rw [← ho]; exact drop_at2 _ _ _
+  generalize hF : pre ++ s.build = F at *
+  have dq : F.drop (o + (4 + s.hdr.sideInfo)) = s.tag.render ++ s.after := by
     rw [← List.drop_drop, d0, ← List.append_assoc]
     exact List.drop_left' (by simp [length_hdr, hside])
-  have hx := parseXing_build s.build (o + (4 + s.hdr.sideInfo)) s.tag htag s.after dq hn1 hn2
+  have hx := parseXing_build F (o + (4 + s.hdr.sideInfo)) s.tag htag s.after dq hn1 hn2
   have hfs := frameSize_infoOf s.hdr hok
   have hlay : (infoOf s.hdr).layer = 3 := hl3
   have hxo := xing_offset s.hdr hok
   -- by what the tag carries
   have key : ∀ (fv bv : Int), optVal s.tag.frames = fv → optVal s.tag.bytes = bv →
       (fv = -1 ∨ 0 ≤ fv) →
-      parse s.build = .ok
+      parseFrom F pre.length = .ok
         { length := if fv ≠ -1 then .div (.flt (.int ((s.hdr.samples : Int) * fv))) (.nat s.hdr.rate)
-                    else .div (.int (8 * ((s.build.length : Int) - (o : Nat)))) (.flt (.int s.hdr.bitrate)),
+                    else .div (.int (8 * ((F.length : Int) - (o : Nat)))) (.flt (.int s.hdr.bitrate)),
           bitrate := if fv ≠ -1 ∧ bv ≠ -1 ∧ (s.hdr.samples : Int) * fv > 0 then
               .round (.div (.int ((max 0 (bv - s.hdr.frameLength)) * 8 * s.hdr.rate)) (.flt (.int ((s.hdr.samples : Int) * fv))))
             else .int s.hdr.bitrate,
@@ -170,19 +173,19 @@ theorem parse_xing (s : XingStream) (ok : s.OK) : parse s.build = .ok s.expected
           encoderInfo := [], encoderSettings := [], trackGain := none, trackPeak := none, albumGain := none, frameOffset := o } := by
     intro fv bv hfv hbv hnn
     rw [hfv, hbv] at hx
-    have hvb := vbrHeader_xing s.build { offset := o, h := infoOf s.hdr, bitrate := .int (infoOf s.hdr).bitrate } s.tag.isInfo
+    have hvb := vbrHeader_xing F { offset := o, h := infoOf s.hdr, bitrate := .int (infoOf s.hdr).bitrate } s.tag.isInfo
       fv bv (optVal s.tag.quality) (by simp only [hxo]; exact hx)
-    have hm : mpegFrame s.build o = .ok (some (vbrHeader s.build { offset := o, h := infoOf s.hdr, bitrate := .int (infoOf s.hdr).bitrate },
+    have hm : mpegFrame F o = .ok (some (vbrHeader F { offset := o, h := infoOf s.hdr, bitrate := .int (infoOf s.hdr).bitrate },
         o + (infoOf s.hdr).frameLength)) := by
       unfold mpegFrame
       rw [d0, decode_hdr s.hdr hok]
       simp only [hlay, ↓reduceIte]
-    have hsk : (vbrHeader s.build { offset := o, h := infoOf s.hdr, bitrate := .int (infoOf s.hdr).bitrate }).sketchy = false := by
+    have hsk : (vbrHeader F { offset := o, h := infoOf s.hdr, bitrate := .int (infoOf s.hdr).bitrate }).sketchy = false := by
       rw [hvb]
-    have htf := takeFrames_first s.build o _ _ hm hsk
-    have hsl := syncLoop_first s.build o rest _ htf hsk
+    have htf := takeFrames_first F o _ _ hm hsk
+    have hsl := syncLoop_first F o rest _ htf hsk
     have hq : (optVal s.tag.quality ≠ -1) ↔ s.tag.quality.isSome = true := optVal_ne _
-    unfold parse parseFrom
+    unfold parseFrom
     simp only [hscan, hsl, hvb, hfs]
     have hneg : ¬ ((s.hdr.samples : Int) * fv < 0) ∨ fv = -1 := by
       rcases hnn with h | h
@@ -203,14 +206,14 @@ theorem parse_xing (s : XingStream) (ok : s.OK) : parse s.build = .ok s.expected
   | none =>
     have := key (-1) (optVal s.tag.bytes) (by simp [hfr, optVal]) rfl (.inl rfl)
     rw [this]
-    simp [XingStream.expected, headerInfo, hfr, ho]
+    simp [XingStream.expected, headerInfo, hfr, hE]
   | some n =>
     cases hby : s.tag.bytes with
     | none =>
       have := key (Int.ofNat n) (-1) (by simp [hfr, optVal]) (by simp [hby, optVal]) (.inr (Int.natCast_nonneg _))
       rw [this]
       have hne : ¬ ((n : Int) = -1) := by omega
-      simp [XingStream.expected, headerInfo, hfr, hby, ho, hne]
+      simp [XingStream.expected, headerInfo, hfr, hby, hE, hne]
     | some b =>
       have := key (Int.ofNat n) (Int.ofNat b) (by simp [hfr, optVal]) (by simp [hby, optVal]) (.inr (Int.natCast_nonneg _))
       rw [this]
@@ -218,6 +221,13 @@ theorem parse_xing (s : XingStream) (ok : s.OK) : parse s.build = .ok s.expected
       have hbe : ¬ ((b : Int) = -1) := by omega
       have hpos : (0 < (s.hdr.samples : Int) * (n : Int)) ↔ 0 < s.hdr.samples * n := by
         rw [← Int.natCast_mul]; exact Int.natCast_pos
-      simp [XingStream.expected, headerInfo, hfr, hby, ho, hne, hbe, hpos]
+      simp [XingStream.expected, headerInfo, hfr, hby, hE, hne, hbe, hpos]
+
+theorem parse_xing (s : XingStream) (ok : s.OK) : parse s.build = .ok s.expected := by
+  have h := parse_xing_at [] s ok
+  simp only [List.nil_append, List.length_nil, Nat.zero_add] at h
+  rw [show parse s.build = parseFrom s.build 0 from rfl, h]
+  unfold XingStream.expected
+  cases s.tag.frames <;> rfl
 
 end Mutagen.Info.Mp3
